@@ -19,32 +19,182 @@ structure TrkInv (s : TrkState) : Prop where
 
 theorem inv_init (ordered : Bool) (ttl : Option Int) :
     TrkInv { ordered := ordered, ttl := ttl } := by
-  sorry
+  constructor <;> simp
 
 /-! ## sorting by `last_updated` -/
 
+theorem insertByLu_perm (x : Track) (l : List Track) : (insertByLu x l).Perm (x :: l) := by
+  induction l with
+  | nil => simp [insertByLu]
+  | cons y ys ih =>
+    simp only [insertByLu]
+    split
+    · exact (List.Perm.cons y ih).trans (List.Perm.swap x y ys)
+    · exact List.Perm.refl _
+
+theorem insertByLu_sorted (x : Track) (l : List Track) (h : l.Pairwise (fun a b => a.lu ≤ b.lu)) :
+    (insertByLu x l).Pairwise (fun a b => a.lu ≤ b.lu) := by
+  induction l with
+  | nil => simp [insertByLu]
+  | cons y ys ih =>
+    simp only [insertByLu]
+    rw [List.pairwise_cons] at h
+    split
+    · rename_i hlt
+      rw [List.pairwise_cons]
+      refine ⟨?_, ih h.2⟩
+      intro z hz
+      rw [(insertByLu_perm x ys).mem_iff] at hz
+      rcases List.mem_cons.1 hz with rfl | hz
+      · omega
+      · exact h.1 z hz
+    · rename_i hlt
+      rw [List.pairwise_cons]
+      refine ⟨?_, List.pairwise_cons.2 h⟩
+      intro z hz
+      rcases List.mem_cons.1 hz with rfl | hz
+      · omega
+      · have := h.1 z hz; omega
+
+theorem sortByLu_cons (x : Track) (l : List Track) : sortByLu (x :: l) = insertByLu x (sortByLu l) := rfl
+
 theorem sortByLu_perm (l : List Track) : (sortByLu l).Perm l := by
-  sorry
+  induction l with
+  | nil => exact List.Perm.refl _
+  | cons x xs ih =>
+    rw [sortByLu_cons]
+    exact (insertByLu_perm x _).trans (List.Perm.cons x ih)
 
 theorem sortByLu_sorted (l : List Track) : (sortByLu l).Pairwise (fun a b => a.lu ≤ b.lu) := by
-  sorry
+  induction l with
+  | nil => exact List.Pairwise.nil
+  | cons x xs ih =>
+    rw [sortByLu_cons]
+    exact insertByLu_sorted x _ ih
 
 /-- the scan order of `cleanup` is sorted oldest-first in both modes (I2 in ordered mode) -/
 theorem view_sorted (s : TrkState) (h : TrkInv s) :
     (viewOldestFirst s).Pairwise (fun a b => a.lu ≤ b.lu) := by
-  sorry
+  unfold viewOldestFirst
+  split
+  · exact h.sorted ‹_›
+  · exact sortByLu_sorted _
 
 theorem view_perm (s : TrkState) : (viewOldestFirst s).Perm s.tracks := by
-  sorry
+  unfold viewOldestFirst
+  split
+  · exact List.Perm.refl _
+  · exact sortByLu_perm _
 
 /-- an early-exit scan over a sorted list removes exactly the elements satisfying a monotone
 predicate -/
 theorem takeWhile_eq_filter_of_sorted {α} (le : α → α → Prop) (p : α → Bool) (l : List α)
     (hs : l.Pairwise le) (hmono : ∀ a b, le a b → p b = true → p a = true) :
     l.takeWhile p = l.filter p := by
-  sorry
+  induction l with
+  | nil => rfl
+  | cons x xs ih =>
+    rw [List.pairwise_cons] at hs
+    by_cases hp : p x = true
+    · simp [hp, ih hs.2]
+    · have hnil : xs.filter p = [] := by
+        rw [List.filter_eq_nil_iff]
+        intro y hy hpy
+        exact hp (hmono x y (hs.1 y hy) hpy)
+      simp [hp, hnil]
 
 /-! ## expiry -/
+
+/-- with one track per MMSI, a track is determined by its MMSI -/
+theorem key_unique {l : List Track} (hk : l.Pairwise (fun a b => a.mmsi ≠ b.mmsi)) {a b : Track}
+    (ha : a ∈ l) (hb : b ∈ l) (hab : a.mmsi = b.mmsi) : a = b := by
+  induction l with
+  | nil => cases ha
+  | cons x xs ih =>
+    rw [List.pairwise_cons] at hk
+    rcases List.mem_cons.1 ha with rfl | ha'
+    · rcases List.mem_cons.1 hb with rfl | hb'
+      · rfl
+      · exact absurd hab (hk.1 b hb')
+    · rcases List.mem_cons.1 hb with rfl | hb'
+      · exact absurd hab.symm (hk.1 a ha')
+      · exact ih hk.2 ha' hb'
+
+/-- filtering out the keys of the `p`-elements of a permutation removes exactly the `p`-elements -/
+theorem filter_deadIds {l view : List Track} (hk : l.Pairwise (fun a b => a.mmsi ≠ b.mmsi))
+    (hv : view.Perm l) (p : Track → Bool) :
+    l.filter (fun t => !(((view.filter p).map (·.mmsi)).contains t.mmsi)) = l.filter (fun t => !p t) := by
+  apply List.filter_congr
+  intro t ht
+  congr 1
+  rw [Bool.eq_iff_iff]
+  simp only [List.contains_iff_mem, List.mem_map, List.mem_filter]
+  constructor
+  · rintro ⟨u, ⟨hu, hpu⟩, hut⟩
+    have := key_unique hk (hv.mem_iff.1 hu) ht hut
+    rw [← this]; exact hpu
+  · intro hpt
+    exact ⟨t, ⟨hv.mem_iff.2 ht, hpt⟩, rfl⟩
+
+
+
+theorem drop_length_takeWhile {α} (p : α → Bool) (l : List α) :
+    l.drop (l.takeWhile p).length = l.dropWhile p := by
+  induction l with
+  | nil => rfl
+  | cons x xs ih =>
+    by_cases hp : p x = true
+    · simp [hp, ih]
+    · simp [hp]
+
+/-- the scan branch of `cleanup`, in closed form -/
+theorem cleanup_scan (s : TrkState) (now d o : Int) (hd : s.ttl = some d) (ho : s.oldest = some o)
+    (hge : ¬ now - d < o) :
+    cleanup s now =
+      ({ s with
+          tracks := s.tracks.filter (fun t =>
+            !((((viewOldestFirst s).takeWhile (fun t => !decide (now - t.lu < d))).map (·.mmsi)).contains t.mmsi)),
+          oldest := match ((viewOldestFirst s).dropWhile (fun t => !decide (now - t.lu < d))).head? with
+            | some t => some t.lu
+            | none => s.oldest },
+       ((viewOldestFirst s).takeWhile (fun t => !decide (now - t.lu < d))).map (fun t => (Ev.deleted, t.mmsi))) := by
+  unfold cleanup
+  split
+  · rename_i d' o' hd' ho'
+    rw [hd] at hd'; rw [ho] at ho'
+    cases hd'; cases ho'
+    rw [if_neg hge]
+    simp only [drop_length_takeWhile, List.map_map]
+    simp only [decide_not, Bool.decide_eq_true, Function.comp_def]
+    rfl
+  · rename_i hne
+    exact absurd ho (hne d o hd)
+
+/-- `cleanup` either exits early (and then, under the invariants, nothing is stale) or scans -/
+theorem cleanup_cases (s : TrkState) (h : TrkInv s) (now : Int) :
+    (cleanup s now = (s, []) ∧ ∀ t ∈ s.tracks, staleAt s.ttl now t.lu = false) ∨
+    (∃ d o, s.ttl = some d ∧ s.oldest = some o ∧ ¬ now - d < o) := by
+  cases hd : s.ttl with
+  | none =>
+    left
+    refine ⟨by simp [cleanup, hd], ?_⟩
+    intro t _; rfl
+  | some d =>
+    cases ho : s.oldest with
+    | none =>
+      left
+      refine ⟨by simp [cleanup, hd, ho], ?_⟩
+      intro t ht
+      exact absurd ho (h.cached (List.ne_nil_of_mem ht))
+    | some o =>
+      by_cases hlt : now - d < o
+      · left
+        refine ⟨by simp [cleanup, hd, ho, hlt], ?_⟩
+        intro t ht
+        have := h.lower o ho t ht
+        simp [staleAt]; omega
+      · right
+        exact ⟨d, o, rfl, rfl, hlt⟩
 
 /-- **C13 core.** Under the invariants `cleanup` at time `now` keeps exactly the tracks whose age is
 below the TTL (in dict order), fires DELETED exactly for the others (each once), and nothing else. -/
@@ -52,33 +202,260 @@ theorem cleanup_exact (s : TrkState) (h : TrkInv s) (now : Int) :
     (cleanup s now).1.tracks = s.tracks.filter (fun t => !(staleAt s.ttl now t.lu)) ∧
     ((cleanup s now).2).Perm ((s.tracks.filter (fun t => staleAt s.ttl now t.lu)).map fun t => (Ev.deleted, t.mmsi)) ∧
     (cleanup s now).1.ttl = s.ttl ∧ (cleanup s now).1.ordered = s.ordered := by
-  sorry
+  rcases cleanup_cases s h now with ⟨heq, hfresh⟩ | ⟨d, o, hd, ho, hge⟩
+  · rw [heq]
+    refine ⟨?_, ?_, rfl, rfl⟩
+    · symm; rw [List.filter_eq_self]; intro t ht; simp [hfresh t ht]
+    · have : s.tracks.filter (fun t => staleAt s.ttl now t.lu) = [] := by
+        rw [List.filter_eq_nil_iff]; intro t ht; simp [hfresh t ht]
+      rw [this]; exact List.Perm.refl _
+  · rw [cleanup_scan s now d o hd ho hge]
+    have htw := takeWhile_eq_filter_of_sorted (fun a b : Track => a.lu ≤ b.lu)
+      (fun t : Track => !decide (now - t.lu < d)) _ (view_sorted s h)
+      (by intro a b hab hb; simp at hb ⊢; omega)
+    simp only [hd, staleAt]
+    rw [htw]
+    refine ⟨filter_deadIds h.keys (view_perm s) _, ?_, trivial, trivial⟩
+    exact ((view_perm s).filter _).map _
+
+
+/-- a track that survives the scan sits in the not-scanned part of the view -/
+theorem mem_dropWhile_of_survivor {view tracks : List Track} (hvp : view.Perm tracks) (p : Track → Bool)
+    {t : Track}
+    (ht : t ∈ tracks.filter (fun t => !(((view.takeWhile p).map (·.mmsi)).contains t.mmsi))) :
+    t ∈ view.dropWhile p := by
+  rw [List.mem_filter] at ht
+  obtain ⟨ht, hnd⟩ := ht
+  have htv : t ∈ view := hvp.mem_iff.2 ht
+  rw [← List.takeWhile_append_dropWhile (p := p) (l := view)] at htv
+  rcases List.mem_append.1 htv with h1 | h1
+  · exfalso
+    simp only [Bool.not_eq_true', List.contains_eq_mem, decide_eq_false_iff_not, List.mem_map, not_exists,
+      not_and] at hnd
+    exact hnd t h1 rfl
+  · exact h1
 
 theorem inv_cleanup (s : TrkState) (h : TrkInv s) (now : Int) : TrkInv (cleanup s now).1 := by
-  sorry
+  rcases cleanup_cases s h now with ⟨heq, _⟩ | ⟨d, o, hd, ho, hge⟩
+  · rw [heq]; exact h
+  · rw [cleanup_scan s now d o hd ho hge]
+    have hvs := view_sorted s h
+    have hvp := view_perm s
+    rw [← List.takeWhile_append_dropWhile (p := fun t : Track => !decide (now - t.lu < d))
+      (l := viewOldestFirst s)] at hvs
+    constructor
+    · exact h.keys.filter _
+    · intro o' ho' t ht
+      have h1 := mem_dropWhile_of_survivor hvp _ ht
+      simp only at ho'
+      cases hdw : (viewOldestFirst s).dropWhile (fun t : Track => !decide (now - t.lu < d)) with
+      | nil => rw [hdw] at h1; cases h1
+      | cons x xs =>
+        rw [hdw] at ho' h1 hvs
+        simp only [List.head?_cons, Option.some.injEq] at ho'
+        subst ho'
+        rcases List.mem_cons.1 h1 with rfl | h2
+        · exact Int.le_refl _
+        · have := (List.pairwise_append.1 hvs).2.1
+          rw [List.pairwise_cons] at this
+          exact this.1 t h2
+    · intro hne
+      obtain ⟨t, ht⟩ := List.exists_mem_of_ne_nil _ hne
+      have h1 := mem_dropWhile_of_survivor hvp _ ht
+      simp only
+      cases hdw : (viewOldestFirst s).dropWhile (fun t : Track => !decide (now - t.lu < d)) with
+      | nil => rw [hdw] at h1; cases h1
+      | cons x xs => simp
+    · intro hord
+      exact (h.sorted hord).filter _
+
 
 /-! ## the other operations preserve the invariants -/
 
+theorem inv_filter (s : TrkState) (h : TrkInv s) (q : Track → Bool) :
+    TrkInv { s with tracks := s.tracks.filter q } := by
+  constructor
+  · exact h.keys.filter _
+  · intro o ho t ht
+    exact h.lower o ho t (List.mem_filter.1 ht).1
+  · intro hne
+    apply h.cached
+    intro hnil
+    apply hne
+    simp only [hnil, List.filter_nil]
+  · intro hord
+    exact (h.sorted hord).filter _
+
 theorem inv_pop (s : TrkState) (h : TrkInv s) (m : Int) : TrkInv (popTrack s m).1 := by
-  sorry
+  unfold popTrack
+  split
+  · exact inv_filter s h _
+  · exact h
+
+theorem sorted_le_getLast {l : List Track} (hs : l.Pairwise (fun a b => a.lu ≤ b.lu)) {x : Track}
+    (hx : l.getLast? = some x) : ∀ t ∈ l, t.lu ≤ x.lu := by
+  obtain ⟨ys, rfl⟩ := List.getLast?_eq_some_iff.1 hx
+  intro t ht
+  rcases List.mem_append.1 ht with h1 | h1
+  · exact (List.pairwise_append.1 hs).2.2 t h1 x (List.mem_singleton.2 rfl)
+  · rw [List.mem_singleton.1 h1]; exact Int.le_refl _
+
+/-- the state after the insert/merge step of an accepted `update` satisfies the invariants -/
+theorem inv_insert (s : TrkState) (h : TrkInv s) (m : Int) (a : List (String × Val)) (ts : Int)
+    (hord : s.ordered = true → ∀ t ∈ s.tracks, t.lu ≤ ts) :
+    TrkInv { s with tracks := s.tracks.filter (·.mmsi ≠ m) ++ [{ mmsi := m, attrs := a, lu := ts }],
+                    oldest := setOldest s.oldest ts } := by
+  constructor
+  · simp only
+    rw [List.pairwise_append]
+    refine ⟨h.keys.filter _, List.pairwise_singleton _ _, ?_⟩
+    intro t ht u hu
+    rw [List.mem_singleton.1 hu]
+    simpa using (List.mem_filter.1 ht).2
+  · intro o ho t ht
+    simp only at ho ht
+    have hold : ∀ u ∈ s.tracks, o ≤ u.lu := by
+      intro u hu
+      cases hso : s.oldest with
+      | none => exact absurd hso (h.cached (List.ne_nil_of_mem hu))
+      | some x =>
+        have := h.lower x hso u hu
+        rw [hso] at ho
+        simp only [setOldest, Option.some.injEq] at ho
+        omega
+    have hts : o ≤ ts := by
+      cases hso : s.oldest with
+      | none => rw [hso] at ho; simp only [setOldest, Option.some.injEq] at ho; omega
+      | some x => rw [hso] at ho; simp only [setOldest, Option.some.injEq] at ho; omega
+    rcases List.mem_append.1 ht with h1 | h1
+    · exact hold t (List.mem_filter.1 h1).1
+    · rw [List.mem_singleton.1 h1]; exact hts
+  · intro _
+    simp only [setOldest]
+    split <;> simp
+  · intro ho
+    simp only at ho ⊢
+    rw [List.pairwise_append]
+    refine ⟨(h.sorted ho).filter _, List.pairwise_singleton _ _, ?_⟩
+    intro t ht u hu
+    rw [List.mem_singleton.1 hu]
+    exact hord ho t (List.mem_filter.1 ht).1
+
+theorem ite_order_split {β} (ok : Bool) (P : Prop) (hP : ok = true → P) (bad X R : β)
+    (hX : X = bad ∨ X = R) :
+    (if (!ok) = true then bad else X) = bad ∨ (P ∧ (if (!ok) = true then bad else X) = R) := by
+  cases ok
+  · left; simp
+  · rcases hX with h | h
+    · left; simp [h]
+    · right; exact ⟨hP rfl, by simp [h]⟩
+
+/-- the two outcomes of `update`: rejected (nothing changes), or accepted (the order check passed,
+the track is created or merged and moved to the end, then expiry runs) -/
+theorem update_cases (s : TrkState) (m : Int) (attrs : List (String × Val)) (ts now : Int) :
+    update s m attrs ts now = (s, [], false) ∨
+    ((s.ordered = true → ∀ latest, s.tracks.getLast? = some latest → latest.lu ≤ ts) ∧
+     update s m attrs ts now =
+      ((cleanup { s with
+          tracks := s.tracks.filter (·.mmsi ≠ m) ++ [match s.tracks.find? (·.mmsi = m) with
+            | some old => { mmsi := m, attrs := mergeAttrs old.attrs attrs, lu := ts }
+            | none => { mmsi := m, attrs := attrs, lu := ts }],
+          oldest := setOldest s.oldest ts } now).1,
+       ((if (s.tracks.find? (·.mmsi = m)).isSome then Ev.updated else Ev.created), m) ::
+         (cleanup { s with
+          tracks := s.tracks.filter (·.mmsi ≠ m) ++ [match s.tracks.find? (·.mmsi = m) with
+            | some old => { mmsi := m, attrs := mergeAttrs old.attrs attrs, lu := ts }
+            | none => { mmsi := m, attrs := attrs, lu := ts }],
+          oldest := setOldest s.oldest ts } now).2, true)) := by
+  have hfilter : s.tracks.find? (fun x => decide (x.mmsi = m)) = none →
+      s.tracks.filter (fun x => decide (x.mmsi ≠ m)) = s.tracks := by
+    intro hnone
+    rw [List.filter_eq_self]
+    intro t ht
+    have := List.find?_eq_none.1 hnone t ht
+    simpa using this
+  unfold update
+  simp only []
+  cases hfind : s.tracks.find? (fun x => decide (x.mmsi = m)) with
+  | none =>
+    simp only [hfilter hfind, Option.isSome_none, Bool.false_eq_true, if_false]
+    refine ite_order_split _ _ ?_ _ _ _ (Or.inr rfl)
+    intro hok hord latest hl
+    rw [hord, hl] at hok
+    simp only [Bool.not_eq_true', decide_eq_false_iff_not] at hok
+    omega
+  | some old =>
+    simp only [Option.isSome_some, if_true]
+    refine ite_order_split _ _ ?_ _ _ _ ?_
+    · intro hok hord latest hl
+      rw [hord, hl] at hok
+      simp only [Bool.not_eq_true', decide_eq_false_iff_not] at hok
+      omega
+    · by_cases hlt : ts < old.lu
+      · left; rw [if_pos hlt]
+      · right; rw [if_neg hlt]
+
+
+theorem accepted_order (s : TrkState) (h : TrkInv s) (m : Int) (attrs : List (String × Val)) (ts now : Int)
+    (hacc : (update s m attrs ts now).2.2 = true) :
+    s.ordered = true → ∀ t ∈ s.tracks, t.lu ≤ ts := by
+  rcases update_cases s m attrs ts now with heq | ⟨hP, _⟩
+  · rw [heq] at hacc; cases hacc
+  · intro hord t ht
+    cases hl : s.tracks.getLast? with
+    | none => rw [List.getLast?_eq_none_iff] at hl; rw [hl] at ht; cases ht
+    | some latest =>
+      have h1 := sorted_le_getLast (h.sorted hord) hl t ht
+      have h2 := hP hord latest hl
+      omega
+
+/-- the intermediate state of an accepted `update` (after insert/merge, before expiry) satisfies the
+invariants -/
+theorem inv_insert_accepted (s : TrkState) (h : TrkInv s) (m : Int) (attrs : List (String × Val))
+    (ts now : Int) (hacc : (update s m attrs ts now).2.2 = true) :
+    TrkInv { s with
+      tracks := s.tracks.filter (·.mmsi ≠ m) ++ [match s.tracks.find? (·.mmsi = m) with
+        | some old => { mmsi := m, attrs := mergeAttrs old.attrs attrs, lu := ts }
+        | none => { mmsi := m, attrs := attrs, lu := ts }],
+      oldest := setOldest s.oldest ts } := by
+  have hord := accepted_order s h m attrs ts now hacc
+  cases s.tracks.find? (·.mmsi = m) with
+  | none => exact inv_insert s h m _ ts hord
+  | some old => exact inv_insert s h m _ ts hord
 
 theorem inv_update (s : TrkState) (h : TrkInv s) (m : Int) (attrs : List (String × Val)) (ts now : Int) :
     TrkInv (update s m attrs ts now).1 := by
-  sorry
+  rcases update_cases s m attrs ts now with heq | ⟨_, heq⟩
+  · rw [heq]; exact h
+  · have hacc : (update s m attrs ts now).2.2 = true := by rw [heq]
+    rw [heq]
+    exact inv_cleanup _ (inv_insert_accepted s h m attrs ts now hacc) now
 
 theorem inv_step (r : TrkRun) (h : TrkInv r.st) (op : TrkOp) : TrkInv (trkStep r op).st := by
-  sorry
+  cases op with
+  | update m attrs ts => exact inv_update r.st h m attrs _ r.now
+  | pop m => exact inv_pop r.st h m
+  | cleanup => exact inv_cleanup r.st h r.now
+  | tick t => exact h
+  | setTtl ttl => exact ⟨h.keys, h.lower, h.cached, h.sorted⟩
+
+theorem inv_foldl (ops : List TrkOp) : ∀ r : TrkRun, TrkInv r.st → TrkInv (ops.foldl trkStep r).st := by
+  induction ops with
+  | nil => intro r h; exact h
+  | cons op ops ih => intro r h; exact ih _ (inv_step r h op)
 
 /-- every reachable state satisfies the invariants -/
 theorem inv_run (ordered : Bool) (ttl : Option Int) (ops : List TrkOp) :
-    TrkInv (trkRun ordered ttl ops).st := by
-  sorry
+    TrkInv (trkRun ordered ttl ops).st :=
+  inv_foldl ops _ (inv_init ordered ttl)
 
 /-- a rejected update changes nothing and fires nothing -/
 theorem update_rejected (s : TrkState) (m : Int) (attrs : List (String × Val)) (ts now : Int)
     (h : (update s m attrs ts now).2.2 = false) :
     (update s m attrs ts now).1 = s ∧ (update s m attrs ts now).2.1 = [] := by
-  sorry
+  rcases update_cases s m attrs ts now with heq | ⟨_, heq⟩
+  · rw [heq]; exact ⟨rfl, rfl⟩
+  · rw [heq] at h; cases h
 
 /-- an accepted update: the track is created or merged, moved to the end, then expiry runs -/
 theorem update_accepted (s : TrkState) (m : Int) (attrs : List (String × Val)) (ts now : Int)
@@ -91,9 +468,29 @@ theorem update_accepted (s : TrkState) (m : Int) (attrs : List (String × Val)) 
     (update s m attrs ts now).1 = (cleanup s1 now).1 ∧
     (update s m attrs ts now).2.1 =
       ((if (s.tracks.find? (·.mmsi = m)).isSome then Ev.updated else Ev.created), m) :: (cleanup s1 now).2 := by
-  sorry
+  intro merged s1
+  rcases update_cases s m attrs ts now with heq | ⟨_, heq⟩
+  · rw [heq] at h; cases h
+  · rw [heq]; exact ⟨rfl, rfl⟩
+
 
 /-! ## `n_latest_tracks` -/
+
+theorem drop_spec (l : List Track) (j : Nat) (hs : l.Pairwise (fun a b => a.lu ≤ b.lu)) :
+    ∀ a ∈ l, a ∉ l.drop j → ∀ b ∈ l.drop j, a.lu ≤ b.lu := by
+  intro a ha hna b hb
+  rw [← List.take_append_drop j l] at hs ha
+  rcases List.mem_append.1 ha with h1 | h1
+  · exact (List.pairwise_append.1 hs).2.2 a h1 b hb
+  · exact absurd h1 hna
+
+theorem take_spec (l : List Track) (k : Nat) (hs : l.Pairwise (fun a b => a.lu ≥ b.lu)) :
+    ∀ a ∈ l, a ∉ l.take k → ∀ b ∈ l.take k, a.lu ≤ b.lu := by
+  intro a ha hna b hb
+  rw [← List.take_append_drop k l] at hs ha
+  rcases List.mem_append.1 ha with h1 | h1
+  · exact absurd h1 hna
+  · exact (List.pairwise_append.1 hs).2.2 b hb a h1
 
 /-- **C14 core.** -/
 theorem nLatest_spec (s : TrkState) (h : TrkInv s) (n : Int) (hn : 0 ≤ n) :
@@ -103,6 +500,37 @@ theorem nLatest_spec (s : TrkState) (h : TrkInv s) (n : Int) (hn : 0 ≤ n) :
     (∀ t ∈ r, t ∈ s.tracks) ∧
     (∀ a ∈ s.tracks, a ∉ r → ∀ b ∈ r, a.lu ≤ b.lu) ∧
     (s.ordered = false → r.Pairwise (fun a b => a.lu ≥ b.lu)) := by
-  sorry
+  intro r
+  have hk : (max (min n (s.tracks.length : Int)) 0).toNat = min n.toNat s.tracks.length := by omega
+  cases hord : s.ordered with
+  | true =>
+    have hr : r = s.tracks.drop (s.tracks.length - min n.toNat s.tracks.length) := by
+      simp only [r, nLatest, hord, hk, if_true]
+    rw [hr]
+    refine ⟨?_, ?_, ?_, ?_, ?_⟩
+    · rw [List.length_drop]; omega
+    · exact h.keys.sublist (List.drop_sublist _ _)
+    · intro t ht; exact List.mem_of_mem_drop ht
+    · exact drop_spec _ _ (h.sorted hord)
+    · intro hf; cases hf
+  | false =>
+    have hr : r = ((sortByLu s.tracks).reverse).take (min n.toNat s.tracks.length) := by
+      simp only [r, nLatest, hord, hk, Bool.false_eq_true, if_false]
+    have hperm : ((sortByLu s.tracks).reverse).Perm s.tracks :=
+      (List.reverse_perm _).trans (sortByLu_perm _)
+    have hdesc : ((sortByLu s.tracks).reverse).Pairwise (fun a b => a.lu ≥ b.lu) := by
+      rw [List.pairwise_reverse]
+      exact sortByLu_sorted _
+    have hkeys : ((sortByLu s.tracks).reverse).Pairwise (fun a b => a.mmsi ≠ b.mmsi) :=
+      (hperm.pairwise_iff (fun hab => Ne.symm hab)).2 h.keys
+    rw [hr]
+    refine ⟨?_, ?_, ?_, ?_, ?_⟩
+    · rw [List.length_take, hperm.length_eq]; omega
+    · exact hkeys.sublist (List.take_sublist _ _)
+    · intro t ht; exact hperm.mem_iff.1 (List.mem_of_mem_take ht)
+    · intro a ha
+      exact take_spec _ _ hdesc a (hperm.mem_iff.2 ha)
+    · intro _
+      exact hdesc.sublist (List.take_sublist _ _)
 
 end Model
